@@ -28,6 +28,7 @@ class Generated:
         self.meta = {}
         self.extractions = []
         self.structs = {}
+        self.broken = []
 
 
 def _one_line(s):
@@ -71,7 +72,11 @@ def generate(template_path, repo, out_name):
             return L.members_off(g.structs[arg.strip()])
         if kind == 'extract':
             t = tomllib.loads(arg)
-            return do_extract(t)
+            try:
+                return do_extract(t)
+            except X.ExtractionBroken as ex:
+                g.broken.append(str(ex))
+                return '\n#error extraction broke: %s\n' % str(ex).replace('\n', ' ').replace('\\', '/')
         if kind == 'include':
             inc = os.path.join(os.path.dirname(template_path), arg.strip())
             if not os.path.exists(inc):
@@ -118,6 +123,7 @@ def generate(template_path, repo, out_name):
             text = X.lower_range_for(text, log)
             text = preserve_lines_rewrites(text, X.STD_RULES, log, what)
         text = preserve_lines_rewrites(text, t.get('post_rewrites', []), log, what)
+        text = X.lower_try(text, log)
         ghosts = [dict(gh, text=_one_line(gh['text'])) for gh in t.get('ghosts', [])]
         text = X.insert_ghosts(text, ghosts, what)
         loops = [{'ordinal': lp['ordinal'], 'contract': _one_line(lp['contract'])} for lp in t.get('loops', [])]
